@@ -3,7 +3,7 @@ use c05::forms::{self, CaseB};
 use c05::rec::FilterSpec;
 use vcore::proptest::prelude::*;
 
-const RULE: &str = "Domain A (api-sequences): a SpanGuard built by SpanGuard::new with a GENERATED FILTER (accept-all, reject-all, min-level L, accepts-only-events-without-extent, accepts-only-the-first-n-evaluations, rejects-events-carrying-err, keyed on the template text) is held at one fixed erased type and driven by a generated sequence of 0..=10 operations (with_mdl, with_name, with_props, map_props append/prepend, with_completion(k), start) followed by a terminal (complete, complete_with(k), drop, drop while unwinding), inside or outside its frame, over a scripted clock (one entry per now() call: small/large/backwards/repeated/unavailable readings) and a counter or unavailable rng; a completion k is a recording custom completion, emit's completion::Default (built by completion::default(..) or Default::new(..) followed by a GENERATED SEQUENCE of builder calls with_lvl(L) / with_panic_lvl(P) / with_tpl(T), each 0..=2 times in any order), or the Result-aware Ok/Err completions the span macros hand to complete_with, over an explicit runtime whose filter is the case's filter. Domain B (macro-forms): 19 fixed call sites compiled with the real macros (span/debug_/info_/warn_/error_span on sync and async fns, guard parameter, ok_lvl/err_lvl/err/panic_lvl, mdl, new_info_span!, and four sites with a call-site when: filter) against an explicit runtime, with generated runtime filter and when: filter (same kinds as above), clock, rng and exit path (fallthrough, early return, return Err, ? on Err, tail Err, panic, cancelled future, explicit complete/complete_with/with_completion/rename/early drop/complete-then-panic through the guard, new_span with 0/1/2 starts). 'Passed the filter' is decided by the deciding filter's verdict on the span's START event only. Non-trivial = (A) at least 2 builder operations including a with_completion, or a span rejected by the filter, or start called more than once, or drop during unwinding; (B) a rejected span or any exit path other than plain fallthrough.";
+const RULE: &str = "Domain A (api-sequences): a SpanGuard built by SpanGuard::new with a GENERATED FILTER (accept-all, reject-all, min-level L, accepts-only-events-without-extent, accepts-only-the-first-n-evaluations, rejects-events-carrying-err, keyed on the template text) is held at one fixed erased type and driven by a generated sequence of 0..=10 operations (with_mdl, with_name, with_props, map_props append/prepend, with_completion(k), start; PROPERTY KEYS are drawn from plain user keys AND from keys that collide with emit's well-known keys - the span's own span_name / evt_kind, the lvl / err a completion may add, the trace_id / span_id / span_parent of the frame, and ts / ts_start / mdl / tpl / msg / metric_* - with values that look like legitimate values of those keys, given to SpanGuard::new, installed by with_props / map_props, before or after with_name) followed by a terminal (complete, complete_with(k), drop, drop while unwinding), inside or outside its frame, over a scripted clock (one entry per now() call: small/large/backwards/repeated/unavailable readings) and a counter or unavailable rng; a completion k is a recording custom completion, emit's completion::Default (built by completion::default(..) or Default::new(..) followed by a GENERATED SEQUENCE of builder calls with_lvl(L) / with_panic_lvl(P) / with_tpl(T), each 0..=2 times in any order), or the Result-aware Ok/Err completions the span macros hand to complete_with, over an explicit runtime whose filter is the case's filter. Every completed event is read both by enumeration (for_each) and by keyed lookup (get / pull on the event's props, through &dyn ErasedProps, Event::erase, an And chain, emit::kind::is_span_filter / is_metric_filter, and - for custom completions - on the bare Span and Span::erase). The generated filters include a kind-based one (accepts only evt_kind = span by keyed lookup). Domain B (macro-forms): 20 fixed call sites compiled with the real macros (span/debug_/info_/warn_/error_span on sync and async fns, guard parameter, ok_lvl/err_lvl/err/panic_lvl, mdl, new_info_span!, four sites with a call-site when: filter, and a guard site whose literal macro properties are called span_name / evt_kind) against an explicit runtime, with generated runtime filter and when: filter (same kinds as above), clock, rng and exit path (fallthrough, early return, return Err, ? on Err, tail Err, panic, cancelled future, explicit complete/complete_with/with_completion/rename + re-propertying (two generated properties out of p, q, span_name, evt_kind, lvl, err, trace_id, span_id; with_name before or after with_props/map_props)/early drop/complete-then-panic through the guard, new_span with 0/1/2 starts). 'Passed the filter' is decided by the deciding filter's verdict on the span's START event only. Non-trivial = (A) at least 2 builder operations including a with_completion, or a span rejected by the filter, or start called more than once, or drop during unwinding; (B) a rejected span or any exit path other than plain fallthrough.";
 
 fn comp_spec() -> impl Strategy<Value = CompSpec> {
     // 0 custom, 1 emit's default completion, 2 / 3 the macros' Ok / Err completions over the case's runtime
@@ -163,6 +163,9 @@ fn main() {
             "whether err is attached when a plain span (no ok_lvl/err_lvl/err) wraps a function returning Err is don't-care",
             "a span is enabled iff the deciding filter (the call-site when: filter if the site has one, else the runtime's filter; the filter given to SpanGuard::new in domain A) accepts the span's START event: the macro's own level (none in domain A), no extent, no err, template \"{span_name} started\"; what any filter would say about the COMPLETION event (its level, extent, err, template, or a later evaluation count) is irrelevant: the completion must arrive exactly once. Consulting a filter again is not itself a violation; a completion that is missing after a filter rejected a later evaluation is reported as completion-filtered-again",
             "completion::Default builder: the last call of a kind wins and no call resets what another kind set: non-panic exit -> lvl = last with_lvl value (none if never called); unwinding -> lvl = last with_panic_lvl value, else error, with err; template = last with_tpl value, else \"{span_name} completed\"",
+            "name and kind: the completed event's span_name is the guard's current name and its evt_kind is span whatever the span's properties are called - by enumeration (the first entry of a key counts, the Props contract) and by every keyed lookup; the same holds for the start event shown to the filter (SpanGuard::new rustdoc: 'a Span carrying the generated span context, but without an extent')",
+            "properties: all of the span's own properties are carried in order, duplicates included, whatever their keys; a keyed lookup of a key answers what the completion assigns (lvl, err), else the span's first property of that name; a property called lvl / err is therefore the level / error of the event exactly where the completion assigns none (also on the start event the filter sees); a level / err the completion assigns (panic level and error - property text; configured lvl, Ok/Err levels and err - macro docs) takes precedence over a same-named property",
+            "a span property called trace_id / span_id / span_parent next to the frame's span context: both must be carried (enumeration); which one a keyed lookup answers is don't-care, and the ids 'the span was created with' are then taken from the id entries the filter was shown by enumeration",
             "attribute macros on block expressions need unstable rustc features (stmt_expr_attributes / proc_macro_hygiene) and cannot be compiled by the stable toolchain this harness uses; block forms are therefore not among the call sites (they share inject_sync/inject_async with the fn forms)",
         ],
         |s| {
@@ -190,6 +193,24 @@ fn main() {
             s.require("builder:>=2-setters", 5000);
             s.require("builder:with_panic_lvl-before-with_tpl", 2000);
             s.require("builder:with_panic_lvl-before-with_tpl/panic-exit", 500);
+            // span properties whose keys collide with emit's well-known keys, on completing spans
+            s.require("collide:span_name", 5000);
+            s.require("collide:evt_kind", 5000);
+            s.require("collide:own-key/given-to-new", 4000);
+            s.require("collide:own-key/by-with_props", 3000);
+            s.require("collide:own-key/by-map_props", 4000);
+            s.require("collide:own-key/then-with_name", 3000);
+            s.require("collide:own-key/custom-completion", 4000);
+            s.require("collide:own-key/default-completion", 4000);
+            s.require("collide:own-key/result-hook-completion", 2500);
+            s.require("collide:own-key-on-start-event", 15000);
+            s.require("collide:lvl-or-err", 5000);
+            s.require("collide:lvl-or-err/panic-exit", 400);
+            s.require("collide:id-key", 5000);
+            s.require("collide:metadata-key", 2500);
+            s.require("A:kind-filter", 2000);
+            s.require("B:rename-with-props-named-span_name-or-evt_kind", 70);
+            s.require("B:macro-props-named-span_name-evt_kind", 250);
             s.require("B:when-accepts-over-rejecting-runtime-filter", 400);
             s.require("B:when-rejects-over-accepting-runtime-filter", 400);
             // a fixed probe for the class of defect D2 (with_completion on a filtered-out guard), so that
